@@ -72,6 +72,10 @@ impl StoreModel {
     }
 
     pub fn create_kg(&mut self, kg: &str) -> Result<(), String> {
+        // names of the storage engine's own directories under the data directory are refused
+        if kg == "persist" || kg == "metadata" {
+            return Err("reserved".into());
+        }
         if self.kgs.contains_key(kg) {
             return Err("exists".into());
         }
